@@ -316,6 +316,22 @@ def gen_anon(rnd, tier):
         ops.append(["obs"])
         if anon:
             nm[0] += nm[c]
+    if rnd.random() < 0.6:
+        # the same (frozen) window maps under a SECOND parent: whatever the first parent did after absorbing them
+        # must not have leaked into the shared children
+        ops.append(["new", rnd.choice([5, 6, 7]), 8, 0]); nm.append([])
+        p2 = len(nm) - 1
+        first = rnd.random() < 0.5
+        if not first:
+            add_res(p2, related(rnd.choice(nm[0])) if nm[0] else pick_name())
+        for c in order:
+            ops.append(["win", p2, c, None, None, None])
+            ops.append(["obs"])
+            for _ in range(rnd.randint(0, 2)):
+                if nm[0]:
+                    rid[0] += 1
+                    ops.append(["res", p2, rid[0], 1, {"t": related(rnd.choice(nm[0]))}, 1, None, None])
+                    ops.append(["obs"])
     ops.append(["obs", "full"])
     return {"engine": "memmap", "kind": "anon", "ops": ops}
 
@@ -730,15 +746,16 @@ def oracle(case, obs):
                     out.append(("C03", k, f"map {mi}: all_resources() raised inside the property's domain"))
                     continue
                 got = [(i[0], [dec_name(p) for p in i[1]], i[2], i[3], i[4]) for i in ar[1]]
+                paths = [repr(g[1]) for g in got]
+                if len(set(paths)) != len(paths):
+                    dup = next(p_ for p_ in paths if paths.count(p_) > 1)
+                    out.append(("C18", k, f"map {mi}: two resources are reported under the same path {dup}"))
                 if got != exp:
                     out.append(("C03", k, f"map {mi}: all_resources() {got} differs from address arithmetic {exp}"))
                     continue
                 for (u, v) in zip(got, got[1:]):
                     if u[3] > v[2]:
                         out.append(("C03", k, f"map {mi}: all_resources() not ascending/disjoint"))
-                paths = [repr(g[1]) for g in got]
-                if len(set(paths)) != len(paths):
-                    out.append(("C18", k, f"map {mi}: two resources share the path {paths}"))
                 for a, d in zip(op[1], dc):
                     hit = [g[0] for g in got if g[2] <= a < g[3]]
                     if (d != hit[:1]) or len(hit) > 1:
